@@ -167,11 +167,19 @@ def stat_cases(rng, seeds, tier):
         fams.append(("gauss", [rng.choice([-3.0, 0.0, 7.5]), b]))       # mean, variance
         fams.append(("gamma2", [a, b]))
         # Beta(a, b) with b < 0.27 has more than 1e-4 of its mass within one ulp of 1 (for a = 1 and
-        # b = 0.1: 2.7%), where doubles cannot resolve the cdf: a KS test on doubles is meaningless there
-        fams.append(("beta", [a, max(b, 0.5)]))
+        # b = 0.1: 2.7%), where doubles cannot resolve the cdf (and qBeta caps its result): the harness
+        # compares the beta samples with the cdf conditionally on x < 1 - 1e-9 (see `ks` in harness/C18.cpp)
+        fams.append(("beta", [a, b]))
         fams.append(("dGamma", [a, b]))
+        fams.append(("dGammaOff", [a, b, rng.choice([-2.0, 0.5, 3.0])]))   # alpha, beta, offset
         fams.append(("dGauss", [rng.choice([-3.0, 0.0, 7.5]), b]))      # mu, sigma
-        fams.append(("dBeta", [max(a, 0.5), max(b, 0.5)]))
+        fams.append(("dBeta", [a, b]))
+    # the corner of the beta law (mass piling up at 1) at every seed
+    for a, b in ([] if big else [(20.0, 0.1), (0.1, 0.1), (1.0, 0.1)]):
+        fams.append(("beta", [a, b]))
+        fams.append(("dBeta", [a, b]))
+    for lo, hi in [(0.0, 1.0), (-3.0, 2.0), (2.0, 2.5)] + ([(0.1, 20.0), (-20.0, -0.1)] if big else []):
+        fams.append(("dUnif", [lo, hi]))
     for i, (fam, ps) in enumerate(fams):
         s = seeds[i % len(seeds)]
         cases.append(["case ks-%s-%d" % (fam, i), "seed %d" % s, "ks %s %d %s" % (fam, n_ks, " ".join(map(hx, ps)))])
@@ -262,8 +270,9 @@ def compare(op_line, impl, model):
         return model.strip() == "stat" and re.match(r"^[0-9a-fn ;]+$", impl.strip()) is not None
     if op == "ctest" and not impl.startswith("exc:"):
         a, b = impl.split(), model.split()
-        # the C++ accumulates the statistic through long double: compared to 1e-9 relative
-        return len(a) == 3 and len(b) == 3 and _close(a[0], b[0]) and a[1] == b[1] and a[2] == b[2]
+        # the C++ accumulates the statistic through long double: compared to 1e-9 relative; everything else
+        # (p-value, degrees of freedom, margins, replicate statistics, generator-state flag) exactly
+        return len(a) >= 3 and len(a) == len(b) and _close(a[0], b[0]) and a[1:] == b[1:]
     return " ".join(impl.split()) == " ".join(model.split())
 
 
